@@ -208,6 +208,12 @@ def _jobrun(argv):
             res = getattr(mod, func)(**kwargs)
         else:                                    # replay: func = harness name
             out = mod.replay(func, unjson(kwargs))
+            if not out:
+                # the symbolic run executes many paths in one process, the replay a single one in a fresh process: a defect that needs an earlier call to the same
+                # code (state leaking through a module-level table, a cache, a mutable default) shows only on a second evaluation - so every replay is run twice
+                out2 = mod.replay(func, unjson(kwargs))
+                if out2:
+                    out = "on the second evaluation in the same process: " + out2
             res = {"reproduced": bool(out), "detail": out or ""}
     except BaseException as e:                   # harness crash: reported as harness error
         res = {"harness": func, "verdict": "harness_error", "message": "%s: %s" % (type(e).__name__, e),
